@@ -19,6 +19,8 @@ import (
 //   clean       — the writer never fails; the reader fragments the data in every legal way. Read-back must be equal.
 //   write-fault — the device fails from byte k on (a torn prefix reaches the disk). The write call must report an
 //                 error; a nil error is an acknowledgement, and then the bytes on the disk must read back equal.
+//   transient   — as write-fault, but only the one write call that reaches byte k fails; the device then recovers (a
+//                 writer that forgets the error of an inner call would finish "successfully" with a hole in the data).
 //   read-fault  — the device reports an I/O error after k bytes. The read call must report an error; a nil error is
 //                 an acknowledgement, and then the object must equal the original.
 
@@ -28,7 +30,7 @@ func init() {
 		Rule:       "one run = one simulated world evolved for 0..N epochs (activation swarm, disabled / recurrent genes, nil traits, float64 weights produced by mutation plus tape-chosen extreme but finite weights) or one simulated experiment; its objects are written to and read back from the simulated disk: plain genome, YAML genome (also modular), Organism.MarshalBinary/UnmarshalBinary, Population.Write/ReadPopulation, fast-solver WriteModel/ReadFMNSModel (outputs over an activation history compared bit for bit), Experiment.Write/Read (records and derived statistics). Clean configuration: reads are fragmented (whole / 1 byte / random short reads / last chunk together with EOF). Fault configurations: the writer fails at byte k, or the reader fails after k bytes; the call must return an error, a nil error is an acknowledgement and then the result must be equal. Some runs sweep k over every byte (small objects) or around every 4096-byte buffer boundary. A case is one round trip; non-trivial when the object has a disabled or recurrent gene, a nil trait, a non-default activation, a module, or a fault fired inside the call; distinct by (kind, object hash, read mode, fault offset)",
 		RealParts:  []string{"genetics.NewGenomeWriter / NewGenomeReader (plain, YAML), Genome.Write / ReadGenome, Organism.MarshalBinary / UnmarshalBinary, Population.Write / ReadPopulation", "network.FastModularNetworkSolver.WriteModel / ReadFMNSModel", "experiment.Experiment.Write / Read with Trial / Generation / champion gob encoding", "bufio, encoding/json, encoding/gob, yaml.v3"},
 		StubParts:  []string{"disk: in-memory io.Reader / io.Writer with tape-chosen fragmentation and failure byte", "GenerationEvaluator of the simulated experiment (scripted)", "wall clock of the simulated experiment (fake clock)"},
-		FaultKinds: []string{"fault.write_error", "fault.read_error", "fault.short_reads", "fault.one_byte_reads", "fault.eof_with_data"},
+		FaultKinds: []string{"fault.write_error", "fault.write_error_transient", "fault.read_error", "fault.short_reads", "fault.one_byte_reads", "fault.eof_with_data"},
 		Assumes:    []string{"weights, trait parameters and fitness values are finite float64 (NaN / Inf are not reachable by the operators from finite start values within the documented option ranges)", "generation records carry a champion, as every record made by an evaluator that fills the generation statistics does (Generation.Encode omits a nil champion while Decode expects one: observed and counted, not judged)", "Trial.Duration and the champion's species are not part of the saved form (the statement lists trials, generations, champions and the fitness / complexity / diversity / winner statistics)", "nothing is demanded of reads of torn data (a write that reported its error): counted only"},
 		ProbeNames: []string{"probe.rt.plain", "probe.rt.yaml", "probe.rt.yaml_modular", "probe.rt.organism", "probe.rt.population", "probe.rt.fastsolver", "probe.rt.fastsolver_modular", "probe.rt.experiment", "probe.genome.disabled", "probe.genome.recurrent", "probe.genome.nil_trait", "probe.genome.nondefault_activation", "probe.weight.extreme", "probe.sweep", "probe.write_fault.error_reported", "probe.read_fault.error_reported", "probe.experiment.cut_short"},
 	})
@@ -82,15 +84,16 @@ type ioObject struct {
 func (c *RunCtx) ioRoundTrip(o *ioObject, mode, failAt int, readDraw func(data []byte) *SimReader) *ioOutcome {
 	out := &ioOutcome{}
 	w := NewSimWriter(-1)
-	if mode == 1 {
+	if mode == 1 || mode == 3 {
 		w.FailAt = failAt
+		w.Transient = mode == 3
 	}
 	c.Lib("write:"+ioKindNames[o.kind], func() { out.wErr = o.write(w) })
 	out.wrote = w.Buf
-	if mode == 1 {
+	if mode == 1 || mode == 3 {
 		out.faultFired = w.Failed
 	}
-	if out.wErr != nil && mode != 1 {
+	if out.wErr != nil && mode != 1 && mode != 3 {
 		return out
 	}
 	if out.wErr != nil {
@@ -102,7 +105,7 @@ func (c *RunCtx) ioRoundTrip(o *ioObject, mode, failAt int, readDraw func(data [
 		r.FailAt = failAt
 	}
 	out.readMode = r.ModeName()
-	if mode == 1 && w.Failed {
+	if (mode == 1 || mode == 3) && w.Failed {
 		// acknowledged although the device failed: whatever reading does, a panic included, is the write's fault
 		defer func() {
 			if rec := recover(); rec != nil {
@@ -147,13 +150,17 @@ func (c *RunCtx) ioJudge(o *ioObject, mode, failAt int, out *ioOutcome) {
 		if out.diff != "" {
 			c.Fail("roundtrip:"+name, "%s does not read back equal (reader mode %s): %s\nwritten form (excerpt): %s", o.desc, out.readMode, out.diff, excerptBytes(out.wrote, 600))
 		}
-	case 1:
+	case 1, 3:
 		if !out.faultFired {
 			// the failure byte lies beyond what the call wrote: a clean round trip
 			c.ioJudge(o, 0, failAt, out)
 			return
 		}
-		c.Count("fault.write_error")
+		if mode == 3 {
+			c.Count("fault.write_error_transient")
+		} else {
+			c.Count("fault.write_error")
+		}
 		if out.wErr != nil {
 			c.Count("probe.write_fault.error_reported")
 			if !errors.Is(out.wErr, ErrSimDisk) {
@@ -163,7 +170,7 @@ func (c *RunCtx) ioJudge(o *ioObject, mode, failAt int, out *ioOutcome) {
 		}
 		// acknowledged: the bytes on the disk must read back equal
 		if out.rErr != nil || out.diff != "" {
-			c.Fail("write-error-swallowed:"+name, "the device failed at byte %d while writing %s, the write call returned nil (acknowledged) and the %d bytes on the disk do not read back equal: read error %v, difference %q", failAt, o.desc, len(out.wrote), out.rErr, out.diff)
+			c.Fail("write-error-swallowed:"+name, "the device failed (%s) at byte %d while writing %s, the write call returned nil (acknowledged) and the %d bytes on the disk do not read back equal: read error %v, difference %q", []string{"", "and stayed failed", "", "for one write call"}[mode], failAt, o.desc, len(out.wrote), out.rErr, out.diff)
 		}
 		c.Count("observe.write_fault.acknowledged_and_readable")
 	case 2:
@@ -725,7 +732,7 @@ func (c *RunCtx) runObject(o *ioObject, mode int, sweep bool, interesting bool) 
 		c.State(hh)
 		c.Nontrivial(hh)
 	}
-	c.Op("%s: %s fault at %d point(s) %v", ioKindNames[o.kind], []string{"", "write", "read"}[mode], len(points), firstInts(points, 8))
+	c.Op("%s: %s fault at %d point(s) %v", ioKindNames[o.kind], []string{"", "write", "read", "transient write"}[mode], len(points), firstInts(points, 8))
 }
 
 func firstInts(x []int, n int) []int {
@@ -741,7 +748,7 @@ func scenarioC15(c *RunCtx) {
 	if c.Thorough {
 		maxPop, maxEpochs = 30, 25
 	}
-	mode := t.Pick("disk.config", 3, 1, 1) // clean / write fault / read fault
+	mode := t.Pick("disk.config", 3, 1, 1, 1) // clean / write fault (device stays failed) / read fault / transient write fault
 	sweep := mode != 0 && t.Chance("sweep", 1, 4)
 	if t.Chance("experiment?", 1, 4) {
 		// ----- a simulated experiment -----
